@@ -72,6 +72,29 @@ def putCell (w : WState) (x : Cell) : WState :=
 def writeTable (cols : List Bytes) (cells : List Cell) : Bytes :=
   (cells.foldl putCell (startTable cols)).text
 
+/-- `operator<<(const Var& x)` with `x` an array: `_row = x.array().clone()` (a copy: the caller's array is
+    neither shared nor changed) replaces whatever cells were pending; the row is written when it has as many
+    cells as there are columns -/
+def putArray (w : WState) (cs : List Cell) : WState :=
+  if cs.length == w.ncols then
+    let pre : Bytes := if w.dataStarted then [] else [10]
+    { w with text := w.text ++ pre ++ writeRow 44 34 cs ++ [10], row := [], dataStarted := true }
+  else { w with row := cs }
+
+/-- what is handed to `operator<<`: one cell, or a whole row as an array `Var` -/
+inductive WItem where
+  | cell (c : Cell)
+  | arr (cs : List Cell)
+deriving Repr, DecidableEq
+
+def putItem (w : WState) : WItem → WState
+  | .cell c => putCell w c
+  | .arr cs => putArray w cs
+
+/-- the file written by `columns(cols)` followed by `<<` of every item -/
+def writeItems (cols : List Bytes) (items : List WItem) : Bytes :=
+  (items.foldl putItem (startTable cols)).text
+
 /-! ## reader -/
 
 /-- a file being read: bytes not yet consumed and the `feof` flag -/
